@@ -229,7 +229,8 @@ def _range_copies(rp, workdir, rc, hist, cls, blobs, blob_dest):
             r['iter'] = iter_of(dest, T)
             if blobs and r['out'] == 'ok':
                 for t in r['iter']:
-                    for x in t['recs']:
+                    last = {x['oid']: x for x in t['recs']}      # one blob file per (oid, tid): the last record's
+                    for x in last.values():
                         if cls.get(x['oid']) != 'blob' or x['d']['v'] == ('gone',):
                             continue
                         try:
